@@ -1,8 +1,14 @@
 """C10 SMC particles are properly weighted (structural clauses, DESIGN §4-C10)."""
-from . import infer
+from . import lints, infer
 
 EXPLANATION = ("Per-particle closures of init/change/extend/rejuvenate are summarised symbolically (under modular_vmap) and their log-weight "
                "polynomials compared with the proper-weighting forms; collection accessors and the rejuvenation_smc pipeline roles are checked.")
-RULES = [infer.particle_collection_helper, infer.smc_init_rule, infer.smc_change_rule, infer.smc_extend_rule, infer.smc_rejuvenate_rule,
+
+def trc(ctx):
+    lints.trc_lint(ctx, ["genjax.inference.smc.init", "genjax.inference.smc.change", "genjax.inference.smc.extend", "genjax.inference.smc.rejuvenate",
+                         "genjax.inference.smc.resample", "genjax.inference.smc.rejuvenation_smc", "genjax.inference.smc.ParticleCollection"])
+
+
+RULES = [trc, infer.particle_collection_helper, infer.smc_init_rule, infer.smc_change_rule, infer.smc_extend_rule, infer.smc_rejuvenate_rule,
          infer.smc_accessors_rule, infer.smc_resample_rule, infer.rejuvenation_smc_rule]
 FLOOR = 8
